@@ -13,15 +13,18 @@ import (
 type NilV struct{}
 
 type Env struct {
-	fx     *FuncVC
-	st     *State
-	vars   map[string]Val
-	lookup func(name string) (Val, bool)
-	old    *Env
-	pkg    *PkgInfo // package whose contract file the expression comes from
-	bound  map[string]bool
-	pats   *[]string
-	depth  int
+	fx      *FuncVC
+	st      *State
+	vars    map[string]Val
+	lookup  func(name string) (Val, bool)
+	old     *Env
+	pkg     *PkgInfo // package whose contract file the expression comes from
+	bound   map[string]bool
+	pats    *[]string
+	depth   int
+	recOf   string
+	guard   T  // inside the definition of a recursive spec function: condition of the enclosing ?: branches
+	recFuel *T // inside the definition of a recursive spec function: the fuel variable
 }
 
 func (e *Env) child() *Env {
@@ -136,7 +139,16 @@ func (e *Env) eval(x Expr) Val {
 		return e.binary(x)
 	case *CondE:
 		c := e.boolT(x.C)
-		a, b := e.eval(x.A), e.eval(x.B)
+		ea, eb := e, e
+		if e.recFuel != nil {
+			g := e.guard
+			if g.S == "" {
+				g = True
+			}
+			ea, eb = e.child(), e.child()
+			ea.guard, eb.guard = And(g, c), And(g, Not(c))
+		}
+		a, b := ea.eval(x.A), eb.eval(x.B)
 		a, b = e.unify(a, b)
 		return fx.iteVal(c, a, b)
 	case *LetE:
@@ -591,6 +603,33 @@ func (e *Env) call(x *CallE) Val {
 		}
 		_, present := e.mapGet(sc, mt, x.Args[1])
 		return Sc{present, boolTyp}
+	case "pure0", "pure1":
+		// pureN("pkg.Func", args...): result N of a pure (trusted) library function
+		lit, ok := x.Args[0].(*StrLit)
+		if !ok {
+			cfail("%s needs the function name as a string literal", x.Fun)
+		}
+		fn := fx.eng.funcByKey(lit.Val)
+		if fn == nil {
+			cfail("%s: unknown function %s", x.Fun, lit.Val)
+		}
+		if sp, _ := fx.eng.specFor(fn); sp == nil || !sp.Pure {
+			cfail("%s: %s has no pure contract", x.Fun, lit.Val)
+		}
+		var args []Val
+		for _, a := range x.Args[1:] {
+			args = append(args, e.eval(a))
+		}
+		i := 0
+		if x.Fun == "pure1" {
+			i = 1
+		}
+		v, ok := fx.pureApp(fn, i, args)
+		if !ok {
+			cfail("%s: %s is not a function of scalars and strings", x.Fun, lit.Val)
+		}
+		fx.trusted[lit.Val] = true
+		return v
 	case "disjoint":
 		a, ok1 := e.eval(x.Args[0]).(SliceV)
 		b, ok2 := e.eval(x.Args[1]).(SliceV)
@@ -638,6 +677,9 @@ func (e *Env) call(x *CallE) Val {
 	}
 	if len(ps.Params) != len(x.Args) {
 		cfail("%s expects %d arguments", x.Fun, len(ps.Params))
+	}
+	if ps.Rec {
+		return e.callRec(ps, x)
 	}
 	if e.depth > 24 {
 		cfail("spec function recursion too deep at %s", x.Fun)
